@@ -18,6 +18,9 @@ MCVals == { [id |-> "empty", len |-> 0], [id |-> "d1", len |-> 76], [id |-> "d1b
             [id |-> "zlead", len |-> 10] }       \* a value that begins with zero bytes
 (* (whether a signed update of an ordinary variable that merely shares its NAME with a secure-boot variable has its descriptor removed is *)
 (* not something the statement settles - the store goes by the name -, so such variables are written with plain writes only)              *)
+(* reduced universe for the deepest exhaustive bound of the thorough tier (the full one is used up to the depth before and in simulation) *)
+MCVarsSmall == {v \in MCVars : v.name \in {"db", "OsIndications", "db@global", "Plain0"}}
+MCValsSmall == {x \in MCVals : x.id \in {"empty", "d1", "d1b", "d3", "zlead"}}
 ApiStep == \/ \E v \in Vars, val \in Vals, s \in BOOLEAN : (v.name = "db@global" => ~s) /\ WriteBegin(v, val, s)
            \/ \E v \in Vars : Read(v, v.attrs)
 HistOp == IF last'.op = "read" THEN [op |-> "read", v |-> last'.v, val |-> "-", signed |-> FALSE]
